@@ -48,7 +48,7 @@ def r_non_conflict(c):
         A = make_agg(agg, m, dict(norm_eps=eps, reg_eps=reg), c.get("u") if c.get("pref") else None)
         w = A.weighting(t64(J)).numpy()
         slack = G @ w + reg * s * s * w
-        bad = bool(np.any(slack < -1e-7 * max(abs(G).max(), 1e-300)))
+        bad = not bool(np.all(slack >= -1e-7 * max(abs(G).max(), 1e-300)))
         return dict(reproduced=bad, Gw=(G @ w).tolist(), allowance=(reg * s * s * w).tolist())
     if agg in ("mgda", "mgda_rate"):
         def run(J):
@@ -58,16 +58,17 @@ def r_non_conflict(c):
             a = A.weighting(t64(J)).numpy()
             qb = _min_norm_value(G)
             qa = float(a @ G @ a)
+            # comparisons are written so that a nan result counts as a violation (nan is not ">= -allowance")
             if agg == "mgda_rate":
-                return dict(reproduced=bool(qa - qb > 8 * s * s / (int(c["iters"]) + 2) + 1e-9 * s * s), qa=qa, qb=qb, J=J.tolist())
-            allow = s * np.sqrt(max(qa - qb, 0.0))
-            bad = bool(np.any(G @ a < -allow - 1e-6 * max(abs(G).max(), 1e-300)))
+                return dict(reproduced=not bool(qa - qb <= 8 * s * s / (int(c["iters"]) + 2) + 1e-9 * s * s), qa=qa, qb=qb, J=J.tolist())
+            allow = s * np.sqrt(max(qa - qb, 0.0)) if qa == qa else 0.0
+            bad = not bool(np.all(G @ a >= -allow - 1e-6 * max(abs(G).max(), 1e-300)))
             return dict(reproduced=bad, Ga=(G @ a).tolist(), allowance=float(allow), J=J.tolist())
         return scale_ladder(run, J)
     if agg == "cagrad":
         A = make_agg("cagrad", m, dict(c=num(c["c"]), norm_eps=num(c["norm_eps"])))
         out = A(t64(J)).numpy()
-        bad = bool(np.any(J @ out < -1e-4 * max(abs(G).max(), 1e-300)))
+        bad = not bool(np.all(J @ out >= -1e-4 * max(abs(G).max(), 1e-300)))
         return dict(reproduced=bad, J_A=(J @ out).tolist())
     raise KeyError(agg)
 
